@@ -15,6 +15,10 @@ INSTANCES = {
     "docs3": (dict(Names={"a", "b"}, EmptyDocs=True),
               {"quick": dict(AttrLists="{<<>>}", OccBudget="<<3, 2, 2>>"),
                "thorough": dict(AttrLists="{<<>>}", OccBudget="<<3, 3, 3>>")}),
+    # four calls: state that accumulates across extends (counts, flags of the root)
+    "docs4": (dict(Names={"a"}, EmptyDocs=True),
+              {"quick": dict(AttrLists='{<<>>, <<"p">>}', OccBudget="<<2, 2, 2, 2>>"),
+               "thorough": dict(AttrLists='{<<>>, <<"p">>}', OccBudget="<<3, 2, 2, 2>>")}),
     # every assignment of ordered attribute lists to the occurrences of one repeated element
     "attrs": (dict(Names={"a"}, MaxDepth=2),
               {"quick": dict(AttrLists='{<<>>, <<"p">>, <<"q">>, <<"p","q">>, <<"q","p">>, <<"p","q","s">>, <<"s","q","p">>}',
